@@ -27,7 +27,7 @@ var Profiles = []string{"core", "styled", "grid", "seq", "near", "nested", "name
 var shapes = []string{"rectangle", "square", "page", "parallelogram", "document", "cylinder", "queue", "package",
 	"step", "callout", "stored_data", "person", "diamond", "oval", "circle", "hexagon", "cloud", "c4-person"}
 
-var words = []string{"alpha", "beta", "gamma", "delta", "a longer label here", "x", "Ω", "multi\\nline", "42", "the quick brown fox jumps"}
+var words = []string{"line one\\nline two\\nline three\\nline four", "alpha", "beta", "gamma", "delta", "a longer label here", "x", "Ω", "multi\\nline", "42", "the quick brown fox jumps"}
 
 var specialNames = []string{
 	"a`b", "${x}", "a${b}c", "$", "{", "}", "a\\b", "back\\\\slash", "tick``", "new\\nline", "quote\\\"d", "it's",
@@ -243,6 +243,10 @@ func (g *Gen) sequence(n *node, maxActors, maxMsgs int) {
 			a.attrs = append(a.attrs, "label: "+quoteVal(g.word()))
 		case 2:
 			a.attrs = append(a.attrs, "shape: "+g.pick([]string{"oval", "circle", "cylinder", "queue", "hexagon", "cloud", "diamond"}))
+		case 3:
+			if r.Intn(2) == 0 { // explicit widths: narrow ones exercise the MIN_ACTOR_WIDTH clamp
+				a.attrs = append(a.attrs, "width: "+g.pick([]string{"10", "20", "60", "150", "300"}))
+			}
 		}
 	}
 	nm := r.Intn(maxMsgs + 1)
